@@ -72,6 +72,11 @@ CHECKS = {
          'Every run: stop step, latches, interpolated times (within the crossing step), -1 for unmet conditions, no un-latching on a further solve; TTP: every table entry equals the reference applied to the run the calculator performed for that temperature, runs start from a reset state, table independent of execution order.',
          'Thresholds come from a pilot of the same record (early/late/never/already met); TTP is compared with its own runs, not with freshly built models (reset() re-creates PBMs with default grids: recorded as an observation).',
          'DESIGN.md 4/C19'),
+ 'C20': ('fault_enumeration', 1500, 7200,
+         'deterministic simulation with crash injection: op histories solve/save/crash/load on precipitation and diffusion models with every save point between solve calls enumerated; surrogate train/save/load round trips on the real databases',
+         'For every generated history every point between solve calls (and after the last) is a save point: save, drop all state, fresh model of the same configuration loads, bitwise comparison of all recorded histories, current state, size distributions and recorded PSDs. Surrogates: pass-through of every untrained getter (bitwise), reproduction of training data, JSON round trip.',
+         'Crash = loss of all in-memory state between solve calls; torn/truncated files are not part of C20. Surrogate checks use the real Al-Zr and Ni-Cr-Al databases with small training grids.',
+         'DESIGN.md 4/C20'),
 }
 
 NOT_APPLICABLE = {
